@@ -174,7 +174,7 @@ fn seqs<C: Cm>(t: &SeqTriple) -> PResult {
     Ok(Pass::new(nt).class_if(ca.len() == cb.len(), "equal_length").class_if(ca.len() != cb.len(), "unequal_length").class_if(stale(&t.a) || stale(&t.b), "edited_or_offset_born"))
 }
 
-fn seq_dispatch(t: &SeqTriple) -> PResult {
+pub fn seq_dispatch(t: &SeqTriple) -> PResult {
     with_codec!(t.codec, C, seqs::<C>(t))
 }
 
